@@ -161,6 +161,13 @@ var hostFns = func() []hostFn {
 			}
 			return *p
 		},
+		"gptrset": func(p *int64) int64 {
+			if p == nil {
+				return -1
+			}
+			*p = 99
+			return 0
+		},
 		"gvar": func(xs ...interface{}) []interface{} { return append([]interface{}{int64(len(xs))}, xs...) },
 		"g1var": func(a interface{}, xs ...interface{}) []interface{} {
 			return append([]interface{}{a, int64(len(xs))}, xs...)
